@@ -79,7 +79,9 @@ def step (s : State) (line : String) : State × String :=
          (s.setRepo { rp with old := if age = "old" then (if rp.old.contains dg then rp.old else rp.old ++ [dg]) else rp.old.filter (· ≠ dg) }, "settime-ok")
        else (s, "settime-error")
      | .bad => (s, "settime-error"))
-  | "NEW" :: conf => ({ defs := s.defs, resps := s.resps, conf := mkConf conf }, "new")
+  -- body definitions are global; the table of response documents is rebuilt by `storeResp` as a history creates them
+  -- (kept across histories it grows without bound and every lookup walks it)
+  | "NEW" :: conf => ({ defs := s.defs, conf := mkConf conf }, "new")
   | _ => (s, "bad-op")
 
 /-- merge configuration tokens: later keys override earlier ones -/
